@@ -213,9 +213,10 @@ def cases(e, env, depth=0):
     return [((), [env.text(e)])]
 
 
-def fn_env(ast, fn):
-    """environment of a function: parameters, then the `let`s of its top-level block"""
-    helpers = {k: v for k, v in ast.helpers_of(fn.file).items() if v is not fn.node}
+def fn_env(ast, fn, keep=()):
+    """environment of a function: parameters, then the `let`s of its top-level block. `keep`: helper names that must
+    stay calls (not be inlined) because the rule looks for the call itself"""
+    helpers = {k: v for k, v in ast.helpers_of(fn.file).items() if v is not fn.node and k not in keep}
     body = canon.normalise(fn.body, helpers, top=True)
     env = Env(fn.node, helpers)
     return body, env
